@@ -696,12 +696,76 @@ pub fn gen_data_batch(seed: u64, n_defs: usize, module: &str, name_prefix: &str)
         }
         roots.push(Root { ty: t, class: "catalogue".into() });
     }
-    // plain primitives and strings as roots (fixed)
+    // plain primitives, strings and every catalogue leaf / container kind as roots (fixed)
     for p in ALL_PRIMS {
         roots.push(Root { ty: Ty::Prim(p), class: "prim".into() });
     }
     roots.push(Root { ty: Ty::Str, class: "prim".into() });
-    roots.dedup_by(|a, b| a.ty == b.ty);
+    let bx = |t: Ty| Box::new(t);
+    let u32t = Ty::Prim(Prim::U32);
+    let fixed_cat: Vec<Ty> = vec![
+        Ty::Unit,
+        Ty::Leaf(Leaf::ArcStr),
+        Ty::Leaf(Leaf::ArrayString(16)),
+        Ty::Leaf(Leaf::PathBuf),
+        Ty::Leaf(Leaf::CowStr),
+        Ty::Leaf(Leaf::Duration),
+        Ty::Leaf(Leaf::SystemTime),
+        Ty::Leaf(Leaf::IpAddr),
+        Ty::Leaf(Leaf::SocketAddr),
+        Ty::Leaf(Leaf::BitVec),
+        Ty::Leaf(Leaf::BitSet),
+        Ty::Leaf(Leaf::BitVec08),
+        Ty::Leaf(Leaf::BitSet08),
+        Ty::Leaf(Leaf::Atomic(Prim::Bool)),
+        Ty::Leaf(Leaf::Atomic(Prim::I16)),
+        Ty::Leaf(Leaf::Atomic(Prim::Usize)),
+        Ty::Leaf(Leaf::Phantom),
+        Ty::Leaf(Leaf::Canary1),
+        Ty::Leaf(Leaf::IoError),
+        Ty::Leaf(Leaf::DateTimeUtc),
+        Ty::Opt(bx(Ty::Str)),
+        Ty::Res(bx(u32t.clone()), bx(Ty::Str)),
+        Ty::Seq(SeqKind::Vec, bx(Ty::Prim(Prim::U8))),
+        Ty::Seq(SeqKind::Vec, bx(Ty::Prim(Prim::Bool))),
+        Ty::Seq(SeqKind::Vec, bx(Ty::Prim(Prim::Char))),
+        Ty::Seq(SeqKind::Vec, bx(Ty::Str)),
+        Ty::Seq(SeqKind::Vec, bx(Ty::Leaf(Leaf::ArcStr))),
+        Ty::Seq(SeqKind::VecDeque, bx(Ty::Prim(Prim::U16))),
+        Ty::Seq(SeqKind::BinaryHeap, bx(Ty::Prim(Prim::I32))),
+        Ty::Seq(SeqKind::BoxSlice, bx(Ty::Prim(Prim::U64))),
+        Ty::Seq(SeqKind::ArcSlice, bx(Ty::Prim(Prim::F32))),
+        Ty::Seq(SeqKind::SmallVec(2), bx(Ty::Str)),
+        Ty::Seq(SeqKind::ArrayVec(3), bx(Ty::Prim(Prim::U32))),
+        Ty::Set(SetKind::Hash, bx(Ty::Str)),
+        Ty::Set(SetKind::BTree, bx(Ty::Prim(Prim::I64))),
+        Ty::Set(SetKind::Index, bx(Ty::Prim(Prim::Char))),
+        Ty::Map(MapKind::Hash, bx(u32t.clone()), bx(Ty::Seq(SeqKind::Vec, bx(u32t.clone())))),
+        Ty::Map(MapKind::Hash, bx(Ty::Str), bx(Ty::Map(MapKind::Hash, bx(Ty::Str), bx(u32t.clone())))),
+        Ty::Map(MapKind::BTree, bx(Ty::Str), bx(Ty::Opt(bx(u32t.clone())))),
+        Ty::Map(MapKind::Index, bx(u32t.clone()), bx(Ty::Seq(SeqKind::Vec, bx(u32t.clone())))),
+        Ty::Array(bx(Ty::Prim(Prim::U16)), 4),
+        Ty::Array(bx(Ty::Str), 0),
+        Ty::Tuple(vec![Ty::Prim(Prim::U8)]),
+        Ty::Tuple(vec![Ty::Prim(Prim::U8), Ty::Prim(Prim::U32)]),
+        Ty::Tuple(vec![Ty::Prim(Prim::U16), Ty::Prim(Prim::U16), Ty::Prim(Prim::U16)]),
+        Ty::Wrap(WrapKind::Box, bx(Ty::Str)),
+        Ty::Wrap(WrapKind::Rc, bx(u32t.clone())),
+        Ty::Wrap(WrapKind::Arc, bx(Ty::Seq(SeqKind::Vec, bx(u32t.clone())))),
+        Ty::Wrap(WrapKind::Cell, bx(u32t.clone())),
+        Ty::Wrap(WrapKind::RefCell, bx(Ty::Str)),
+        Ty::Wrap(WrapKind::StdMutex, bx(u32t.clone())),
+        Ty::Wrap(WrapKind::PlMutex, bx(Ty::Str)),
+        Ty::Wrap(WrapKind::PlRwLock, bx(u32t.clone())),
+        Ty::Range(bx(u32t.clone())),
+    ];
+    for t in fixed_cat {
+        roots.push(Root { ty: t, class: "catalogue_fixed".into() });
+    }
+    {
+        let mut seen = std::collections::HashSet::new();
+        roots.retain(|r| seen.insert(r.ty.clone()));
+    }
     DataBatch { seed, uni: g.uni, roots, stats: g.stats }
 }
 
